@@ -266,6 +266,9 @@ func RunSeq(sc SeqScenario, o SeqOpts) *SeqResult {
 		if sc.Cfg.L1H == "chunked" {
 			l1 = chunkDump(w.L1)
 		}
+		if sc.Cfg.L1H == "inmem" {
+			l1 = InmemSnapshot()
+		}
 		res.StateKey = "M:" + m.Dump() + "|L1:" + l1 + "|L2:" + w.L2.Dump()
 	}
 	return res
